@@ -165,3 +165,98 @@ Proof.
     rewrite Hbits. repeat split; auto. discriminate.
   - inversion Happ; subst m'. cbn [cm_arch cm_hist cm_cur]. rewrite Hbits. repeat split; auto.
 Qed.
+
+(* ---------- 3. forward simulation of whole iterations (move rule + return to base) ---------- *)
+
+(* the explorer model's state and the composed model's state describe the same archive and the same current
+   action set *)
+Definition sim (d : dataset) (s : st) (m : cm_state) : Prop :=
+  arch s = cm_arch m /\ e_acts (cur s) = active_list d (cm_cur m).
+
+Lemma active_list_sync d s bits : length bits = nactions d -> active_list d (synchronise d s bits) = bits.
+Proof.
+  intros Hl. apply nth_ext with (d := false) (d' := false).
+  - rewrite active_list_length. symmetry. exact Hl.
+  - intros n Hn. rewrite active_list_length in Hn. rewrite active_list_nth by exact Hn.
+    apply sync_active; assumption.
+Qed.
+
+Lemma rtb_phase_pick p s i b s2 :
+  rtb_phase p s i = Ok (Some b, s2) ->
+  nth_error (arch s) (Nat.modulo (i_pick i) (length (arch s))) = Some b.
+Proof.
+  unfold rtb_phase. destruct (dec64 (until s) <=? 0)%N; [|intros H; inversion H].
+  destruct (arch s) as [|e0 a] eqn:Ea; [discriminate|].
+  assert (Hk : (Nat.modulo (i_pick i) (length (e0 :: a)) < length (e0 :: a))%nat)
+    by (apply Nat.mod_upper_bound; discriminate).
+  remember (Nat.modulo (i_pick i) (length (e0 :: a))) as k eqn:Ek. clear Ek.
+  intros H. apply bind_ok in H. destruct H as (u' & _ & H).
+  assert (Hb : nth k (e0 :: a) e0 = b) by congruence.
+  rewrite <- Hb. apply nth_error_nth'. exact Hk.
+Qed.
+
+(* the return-to-base selection of the composed model that corresponds to what the iteration did *)
+Definition rtb_of (i : input) (o : obs) (s' : st) : option nat :=
+  match o_base o with
+  | Some _ => Some (Nat.modulo (i_pick i) (length (arch s')))
+  | None => None
+  end.
+
+Lemma iteration_refines_composed p d m pot2 s i o s' :
+  CMValid d m -> sim d s m ->
+  i_cand i = entry_of d (active_list d pot2) ->
+  iteration p s i = Ok (o, s') ->
+  exists m', cm_apply d m pot2 (coolant_accepts p i) (rtb_of i o s') = CMOk m' /\ sim d s' m'.
+Proof.
+  intros HV [Ea Ec] Hcand Hit.
+  assert (Hd : dim_ok 6 (arch s)).
+  { rewrite Ea. intros e He. destruct (arch_members d m e HV He) as (E & _). rewrite E. reflexivity. }
+  assert (Hlen : wf_len 6 (i_cand i)) by (rewrite Hcand; reflexivity).
+  assert (Hbits : e_acts (i_cand i) = active_list d pot2) by (rewrite Hcand; reflexivity).
+  destruct (iteration_decompose _ _ _ _ _ Hit) as (s1 & s2 & H1 & H2 & _ & Ecur & Earch & _).
+  destruct (accept_phase_pure p 6 s i Hd Hlen) as (s1' & E & Earch1 & Ecur1 & _).
+  fold (coolant_accepts p i) in E, Earch1, Ecur1.
+  rewrite H1 in E. injection E as Ev Ed Es. subst s1'.
+  destruct (rtb_phase_spec _ _ _ _ _ H2) as (_ & Earch2 & _ & _ & _ & _ & _ & _ & Hbase).
+  unfold cm_apply, rtb_of. rewrite <- Hcand, <- Ea. rewrite !desirable_verdict_is_stored_or_held.
+  set (v := fst (attempt_b (arch s) (i_cand i))) in *.
+  set (acc := coolant_accepts p i) in *.
+  rewrite <- Earch1.
+  set (cur1 := if stored_or_held v || acc then synchronise d (cm_cur m) (active_list d pot2) else cm_cur m).
+  assert (Hcur1 : e_acts (cur s1) = active_list d cur1).
+  { rewrite Ecur1. unfold cur1. destruct (stored_or_held v || acc).
+    - rewrite active_list_sync by apply active_list_length. exact Hbits.
+    - exact Ec. }
+  unfold sim. rewrite !Earch, !Earch2.
+  destruct (o_base o) as [b|] eqn:Eb.
+  - rewrite (rtb_phase_pick _ _ _ _ _ H2).
+    eexists. split; [reflexivity|]. split; cbn [cm_arch cm_cur]; [reflexivity|].
+    destruct Hbase as (Hin & Hc2 & _). rewrite Ecur, Hc2.
+    unfold decompress. rewrite active_list_sync; [reflexivity|].
+    (* the base is a member of arch s1, i.e. an old member or the candidate *)
+    rewrite Earch1 in Hin. apply step_b_incl in Hin. apply in_app_or in Hin.
+    destruct Hin as [Hin|[Hin|[]]].
+    + rewrite Ea in Hin. destruct (arch_members d m b HV Hin) as (_ & Hl & _). exact Hl.
+    + assert (Hb : b = i_cand i) by (rewrite <- Hin; destruct (negb (stored_or_held v) && acc); reflexivity).
+      rewrite Hb, Hbits. apply active_list_length.
+  - eexists. split; [reflexivity|]. split; cbn [cm_arch cm_cur]; [reflexivity|].
+    destruct Hbase as (Hc2 & _). rewrite Ecur, Hc2. exact Hcur1.
+Qed.
+
+(* consequence: every state of the explorer model that simulates a valid composed state carries an archive with
+   the end-to-end guarantees of composed_multi_objective_run, and so does its successor *)
+Lemma iteration_keeps_composed_guarantees p d m pot2 s i o s' :
+  wf_dataset d = true -> CMValid d m -> Valid d pot2 -> sim d s m ->
+  i_cand i = entry_of d (active_list d pot2) ->
+  iteration p s i = Ok (o, s') ->
+  exists m', CMValid d m' /\ sim d s' m'
+    /\ nondominated (arch s') /\ dup_free (arch s')
+    /\ forall e, In e (arch s') -> e_vec e = eval_vec d (e_acts e) /\ set_valid d (e_acts e) = true.
+Proof.
+  intros Hwf HV V2 Hsim Hcand Hit.
+  destruct (iteration_refines_composed p d m pot2 s i o s' HV Hsim Hcand Hit) as (m' & Happ & Hsim').
+  pose proof (cm_apply_valid d Hwf _ _ _ _ _ HV V2 Happ) as HV'.
+  exists m'. split; [exact HV'|]. split; [exact Hsim'|].
+  destruct (CMValid_boundary d m' HV') as (_ & Hnd & Hdf & Hmem).
+  destruct Hsim' as [Ea' _]. rewrite Ea'. auto.
+Qed.
